@@ -7,3 +7,5 @@ def rules(ctx):
     S.c17_rules(ctx)
     S.c05_r4_poison(ctx)
     S.walker_rules(ctx)
+    S.c10_rules(ctx)
+    S.c06_r7_multimap(ctx)
